@@ -4,13 +4,23 @@ import FitProps.IntegrityHeaderLemmas
 /-!
 # C04 — Corrupted or truncated files are rejected, never silently accepted
 
-PROPERTY THEOREMS (audited by ./check): C04_consts, C04_burst, C04_bitflip, C04_truncation, C04_intact_accepted,
-C04_append, C04_suffix, C04_suffix_complete, C04_reference_partial, C04_reference_witness
+PROPERTY THEOREMS (audited by ./check; the encoder-side ones are in FitProps/C04Encoder.lean):
+* corruption of the records / trailing CRC, truncation: C04_consts, C04_burst, C04_bitflip, C04_truncation, C04_intact_accepted;
+* appended data: C04_append, C04_suffix_check, C04_suffix_complete; with "not complete valid sequences" read by the REFERENCE:
+  C04_suffix_as_built (every suffix, rules as built), C04_suffix_partial / C04_suffix_complete_partial (integrity rules, outside
+  the exact class of KF-C04-1), C04_suffix_witness (the full statement `C04_suffix_full` fails inside the class);
+* reference: C04_check_eq_reference_as_built (EVERY byte string: the check IS the integrity rules with the code's checksum
+  rule), C04_reference_partial + C04_reference_exact (the check equals the reference of the integrity rules exactly where the
+  two references agree: the class of KF-C04-1 is `reference bs ≠ referenceAsBuilt bs`), C04_reference_no_legacy (the former
+  sufficient condition), C04_reference_witness (`C04_reference_full` fails on Settings.fit);
+* the 14 header bytes: C04_header_checked, C04_header_burst, C04_header_size12, C04_header_crc_zeroed_accepted (the one header
+  corruption that is NOT detected; inside KF-C04-1).
 
 Objects: `Integrity.checkIntegrity` (model of `Decoder.CheckIntegrity`), `Integrity.decodeOne` / `decodeAll`
 (model of the first `Decode()` / of the decode loop, checksums on), `IsEncoderOutput14` ("encoder output" as a
-predicate on bytes, stated with the independent framing reader `FitFormat`), `IntegritySpec.reference`.
-All statements are for files of ANY length.
+predicate on bytes, stated with the independent framing reader `FitFormat`; `C04_encoder_output` proves it of the encoder
+model), `IntegritySpec.reference` (the integrity rules), `IntegritySpec.referenceAsBuilt` (the rules with the code's
+checksum rule). All statements are for files of ANY length.
 -/
 namespace Fit.C04
 open Fit.Crc Fit.Integrity Fit.Gen.Integ
